@@ -13,7 +13,7 @@ PROP = 'C05'
 MANIFEST = dict(
     technique='TLA+ models (MathObj/MathObjOps: reference slots over Vec/Angle/Matrix objects and frozen twins; FloatText: canonical decimal text) checked by TLC; every model transition replayed on the real objects, exactly and with hostile floats; implementation records validated by TLC (MathObjTrace, FloatTextTrace)',
     category='model_checking',
-    text='TLC exhausts all histories of up to 3 (thorough: 4) public operations (constructors, conversions, setters, *, *=, @, @=, transform(), to_angle, from_angle, from_basis, copy/deepcopy/pickle, freeze/thaw, str/from_str) over 2 and 3 reference slots on the exact integer domain, with the range invariant, frozen immutability, copy equality/independence as action properties. Every transition is executed on real objects by its shortest history, once with the model values (the whole post-state must be the one the specification computes) and again with hostile floats (-1e-14, 359.99999999999994, exact multiples of 360, -0.0, denormals, 1e15...) where TLC predicts which object is returned or mutated and judges range on exact (sign, floor) triples, immutability and hashes on bit patterns, and copy equality. The canonical text is model-checked for all numbers with 3 places up to 12.999 and validated on the real formatter for every model number, for str() of every Vec/Angle produced in the histories and for seeded floats.',
+    text='TLC exhausts all histories of up to 3 (thorough: 4) public operations (constructors, conversions, setters, *, *=, @, @=, transform(), to_angle, from_angle, from_basis, copy/deepcopy/pickle, freeze/thaw, str/from_str incl. from_str(instance) and with_axes) over 2 and 3 reference slots on the exact integer domain, with the range invariant, frozen immutability, copy equality/independence as action properties. Every transition is executed on real objects by its shortest history, once with the model values (the whole post-state must be the one the specification computes) and again with hostile floats (-1e-14, 359.99999999999994, exact multiples of 360, -0.0, denormals, 1e15...) where TLC predicts which object is returned or mutated and judges range on exact (sign, floor) triples, immutability and hashes on bit patterns, and copy equality; independence probes derive an object by every public path that accepts an instance, mutate one side in place by every in-place path and watch the other side. The canonical text is model-checked for all numbers with 3 places up to 12.999 and validated on the real formatter for every model number, for str() of every Vec/Angle produced in the histories and for seeded floats.',
     design_ref='4 (C05)',
     note='Values of hostile-float histories are not predicted by TLC (no floats); only structure, range, immutability, equality and text are judged there. Pure-Python math.py only.',
 )
@@ -79,6 +79,7 @@ def run(tier: str, seed: int) -> int:
             raise core.MachineryError(f'{tainted} of {len(edges)} transitions unreachable on the implementation')
         cov['edges_replayed'] = st['edges_replayed']
         cov['model_edges'] = len(edges)
+        cov['independence_probes'] = st.get('independence_probes', 0)
         cov['actions_covered'] = st['ops']
         cov['edges_skipped_after_earlier_deviation'] = {'exact': tainted, 'hostile': st.get('tainted_hostile', 0)}
         # the text model on the real formatter + seeded floats
@@ -102,9 +103,9 @@ def run(tier: str, seed: int) -> int:
             for rec in rs:
                 kinds[rec['k']] = kinds.get(rec['k'], 0) + 1
             samples.append({k: v for k, v in rs[len(rs) // 2].items() if k != 'hist'})
-        if not {'step', 'hstep', 'str3', 'fmt'} <= set(kinds):
+        if not {'step', 'hstep', 'indep', 'str3', 'fmt'} <= set(kinds):
             raise core.MachineryError(f'missing record kinds: {kinds}')
-        domain = [m for m in allm if m['clause'] == 'domain']
+        domain = [m for m in allm if m['clause'] in ('domain', 'indep.vacuous')]
         if domain:
             raise core.MachineryError(f'{len(domain)} records outside the model domain, e.g. {json.dumps(domain[0])[:600]}')
         cov['traces_validated_against_impl'] = total
